@@ -110,7 +110,7 @@ func (dist *CategoricalDistribution) Cdf(r Scalar, x ConstScalar) error {
 /* -------------------------------------------------------------------------- */
 
 func (dist *CategoricalDistribution) GetParameters() Vector {
-  return dist.Theta
+  return dist.Theta.CloneVector()
 }
 
 func (dist *CategoricalDistribution) SetParameters(parameters Vector) error {
